@@ -350,3 +350,194 @@ Proof.
   - apply Forall_forall. intros c Hc. apply filter_In in Hc. rewrite Forall_forall in H. apply H. tauto.
   - constructor; [reflexivity | constructor].
 Qed.
+
+(* ------------------------------------------------------------------------------------------- *)
+(* ramps: ticks                                                                                *)
+(* ------------------------------------------------------------------------------------------- *)
+Lemma zrange_from_map : forall n j, zrange_from n j = map (fun i => j + Z.of_nat i) (seq 0 n).
+Proof.
+  induction n as [|n IH]; intros j; [reflexivity|]. cbn [zrange_from seq map]. rewrite IH, <- seq_shift, map_map.
+  f_equal; [lia|]. apply map_ext. intros i. lia.
+Qed.
+Lemma zrange_count_up len : zrange len = count_up (Z.to_nat len).
+Proof. unfold zrange, count_up. rewrite zrange_from_map. apply map_ext. intros i. lia. Qed.
+
+Lemma In_count_up n j : In j (count_up n) <-> 0 <= j < Z.of_nat n.
+Proof.
+  unfold count_up. rewrite in_map_iff. split.
+  - intros [i [<- Hi]]. apply in_seq in Hi. lia.
+  - intros H. exists (Z.to_nat j). split; [lia|]. apply in_seq. lia.
+Qed.
+
+Lemma flat_map_if {A B} (p : A -> bool) (f : A -> B) : forall l,
+  flat_map (fun x => if p x then [f x] else []) l = map f (filter p l).
+Proof. induction l as [|x l IH]; [reflexivity|]. cbn [flat_map filter]. rewrite IH. destruct (p x); reflexivity. Qed.
+
+Lemma filter_ext_in' {A} (p q : A -> bool) : forall l, (forall x, In x l -> p x = q x) -> filter p l = filter q l.
+Proof.
+  induction l as [|x l IH]; intros H; [reflexivity|]. cbn [filter]. rewrite (H x) by (left; reflexivity).
+  rewrite IH by (intros y Hy; apply H; right; assumption). reflexivity.
+Qed.
+
+Lemma ramp_events_ticks mk base freq maxv lo hi len : 1 <= freq ->
+  ramp_events mk base freq maxv (lo, hi, len) =
+  map (fun j => mk (base + j) (value_range 0 (ramp_value lo hi j len) maxv)) (ticks freq len).
+Proof.
+  intros Hf. unfold ramp_events, ticks. rewrite flat_map_if, zrange_count_up. f_equal.
+  apply filter_ext_in'. intros j Hj. apply In_count_up in Hj. rewrite Z.rem_mod_nonneg by lia. reflexivity.
+Qed.
+
+Lemma next_base_max base len : next_base base len = base + Z.max 0 len.
+Proof. unfold next_base. destruct (len >? 0) eqn:E; lia. Qed.
+
+Lemma ramp_segments_spec mk freq maxv : 1 <= freq -> forall segs base,
+  ramp_segments mk base freq maxv segs = ramp_spec mk ramp_value freq maxv base segs.
+Proof.
+  intros Hf. induction segs as [|[[lo hi] len] r IH]; intros base; [reflexivity|].
+  cbn [ramp_segments snd]. rewrite IH, next_base_max, (ramp_events_ticks _ _ _ _ _ _ _ Hf).
+  unfold ramp_spec. cbn [seg_starts combine flat_map]. reflexivity.
+Qed.
+
+Lemma cc_freq_ge1 k : 1 <= cc_freq k /\ cc_freq k = Z.max 1 (tr_freq k).
+Proof. unfold cc_freq. destruct (tr_freq k <? 1) eqn:E; lia. Qed.
+Lemma pb_freq_ge1 tb : 1 <= pb_freq tb /\ (32 <= tb -> pb_freq tb = tb / 32).
+Proof.
+  unfold pb_freq. destruct (tb <? 32) eqn:E.
+  - split; lia.
+  - apply Z.ltb_ge in E. rewrite Z.quot_div_nonneg by lia. split; [|reflexivity].
+    assert (32 / 32 <= tb / 32) by (apply Z.div_le_mono; lia). change (32 / 32) with 1 in H. lia.
+Qed.
+
+Theorem cc_on_time_spec k cc ia :
+  tr_events (write_cc_on_time k cc ia) =
+  tr_events k ++ ramp_spec (fun t v => ev_cc t (tr_channel k) cc v) ramp_value (Z.max 1 (tr_freq k)) 127
+                           (tr_timepos k) (triples ia).
+Proof.
+  unfold write_cc_on_time. cbn [tr_events set_events]. destruct (cc_freq_ge1 k) as [H1 H2].
+  rewrite ramp_segments_spec by assumption. rewrite H2. reflexivity.
+Qed.
+
+Theorem pb_on_time_spec k is_big ia tb :
+  tr_events (write_pb_on_time k is_big ia tb) =
+  tr_events k ++ ramp_spec (fun t v => ev_pitch_bend t (tr_channel k) v) ramp_value (pb_freq tb) 16383
+                           (tr_timepos k) (map (pb_segment is_big) (triples ia)).
+Proof.
+  unfold write_pb_on_time. cbn [tr_events set_events]. destruct (pb_freq_ge1 tb) as [H1 _].
+  rewrite ramp_segments_spec by assumption. reflexivity.
+Qed.
+
+(* nothing but the event list changes *)
+Theorem cc_on_time_frame k cc ia : write_cc_on_time k cc ia = set_events k (tr_events (write_cc_on_time k cc ia)).
+Proof. reflexivity. Qed.
+
+Lemma StronglySorted_filter {A} (R : A -> A -> Prop) (p : A -> bool) : forall l,
+  StronglySorted R l -> StronglySorted R (filter p l).
+Proof.
+  induction l as [|x l IH]; intros H; [constructor|]. inversion H as [|? ? Hs Hf]; subst. cbn [filter].
+  destruct (p x); [|apply IH; assumption]. constructor; [apply IH; assumption|].
+  apply Forall_forall. intros y Hy. apply filter_In in Hy. rewrite Forall_forall in Hf. apply Hf. tauto.
+Qed.
+
+Lemma count_up_sorted n : StronglySorted Z.lt (count_up n).
+Proof.
+  unfold count_up. generalize 0%nat as s. induction n as [|n IH]; intros s; [constructor|].
+  cbn [seq map]. constructor; [apply IH|]. apply Forall_forall. intros y Hy. apply in_map_iff in Hy.
+  destruct Hy as [i [<- Hi]]. apply in_seq in Hi. lia.
+Qed.
+
+(* the ticks of a segment are exactly the multiples of freq in [0, len), each once, ascending *)
+Theorem ticks_exact freq len : 1 <= freq ->
+  (forall j, In j (ticks freq len) <-> 0 <= j < len /\ (freq | j)) /\ StronglySorted Z.lt (ticks freq len).
+Proof.
+  intros Hf. split.
+  - intros j. unfold ticks. rewrite filter_In, In_count_up. rewrite Z.eqb_eq, Z.mod_divide by lia.
+    split; intros [A B]; (split; [|assumption]); lia.
+  - apply StronglySorted_filter, count_up_sorted.
+Qed.
+
+Lemma ticks_head freq len : 1 <= freq -> 0 < len -> exists rest, ticks freq len = 0 :: rest.
+Proof.
+  intros Hf Hl. unfold ticks, count_up. destruct (Z.to_nat len) as [|n] eqn:E; [lia|].
+  cbn [seq map filter]. change (Z.of_nat 0) with 0. rewrite Z.mod_0_l by lia. cbn. eexists. reflexivity.
+Qed.
+
+(* ---- range ---- *)
+Lemma value_range_bounds v maxv : 0 <= maxv -> 0 <= value_range 0 v maxv <= maxv.
+Proof. intros H. unfold value_range. destruct (v <? 0) eqn:A; [lia|]. destruct (v >? maxv) eqn:B; lia. Qed.
+
+Lemma ramp_spec_forall (P : event -> Prop) mk value freq maxv :
+  (forall t v, 0 <= v <= maxv -> P (mk t v)) -> 0 <= maxv -> forall segs base, Forall P (ramp_spec mk value freq maxv base segs).
+Proof.
+  intros HP Hm segs base. unfold ramp_spec. apply Forall_forall. intros e He.
+  apply in_flat_map in He. destruct He as [[b [[lo hi] len]] [_ He]]. apply in_map_iff in He.
+  destruct He as [j [<- _]]. apply HP. apply value_range_bounds. assumption.
+Qed.
+
+Theorem cc_on_time_range k cc ia : exists new,
+  tr_events (write_cc_on_time k cc ia) = tr_events k ++ new /\
+  Forall (fun e => e_type e = ControllChange /\ e_ch e = tr_channel k /\ e_v1 e = cc /\ 0 <= e_v2 e <= 127) new.
+Proof.
+  eexists. split; [apply cc_on_time_spec|]. apply ramp_spec_forall; [|lia].
+  intros t v Hv. cbn. repeat split; lia.
+Qed.
+
+Theorem pb_on_time_range k is_big ia tb : exists new,
+  tr_events (write_pb_on_time k is_big ia tb) = tr_events k ++ new /\
+  Forall (fun e => e_type e = PitchBend /\ e_ch e = tr_channel k /\ 0 <= e_v1 e <= 16383) new.
+Proof.
+  eexists. split; [apply pb_on_time_spec|]. apply ramp_spec_forall; [|lia].
+  intros t v Hv. cbn. repeat split; lia.
+Qed.
+
+(* ------------------------------------------------------------------------------------------- *)
+(* ramps: the first value of a segment is lo. The three f32 facts are evaluated by the kernel   *)
+(* (vm_compute) on every integer of the stated range, then combined.                            *)
+(* ------------------------------------------------------------------------------------------- *)
+Fixpoint check_range (f : Z -> bool) (n : nat) (z : Z) : bool :=
+  match n with O => true | S m => f z && check_range f m (z + 1) end.
+Lemma check_range_sound f : forall n z, check_range f n z = true -> forall i, z <= i < z + Z.of_nat n -> f i = true.
+Proof.
+  induction n as [|n IH]; intros z H i Hi; [lia|]. cbn [check_range] in H. apply andb_prop in H. destruct H as [H0 H1].
+  destruct (Z.eq_dec i z) as [->|Hne]; [assumption|]. apply (IH (z + 1) H1). lia.
+Qed.
+
+Definition RB : Z := 65536.      (* bound of the range on which ramp_start is stated *)
+Definition is_zero (x : f32) : bool := match x with S754_zero _ => true | _ => false end.
+Definition chk_div (len : Z) : bool :=
+  match f32_div (f32_of_Z 0) (f32_of_Z len) with S754_zero false => true | _ => false end.
+Definition chk_mul (d : Z) : bool := is_zero (f32_mul (f32_of_Z d) (S754_zero false)).
+Definition chk_add (lo : Z) : bool :=
+  (f32_to_Z (f32_add (S754_zero false) (f32_of_Z lo)) =? lo) && (f32_to_Z (f32_add (S754_zero true) (f32_of_Z lo)) =? lo).
+
+Lemma chk_div_all : check_range chk_div (Z.to_nat RB) 1 = true.
+Proof. vm_compute. reflexivity. Qed.
+Lemma chk_mul_all : check_range chk_mul (Z.to_nat (2 * RB + 1)) (- RB) = true.
+Proof. vm_compute. reflexivity. Qed.
+Lemma chk_add_all : check_range chk_add (Z.to_nat (2 * RB + 1)) (- RB) = true.
+Proof. vm_compute. reflexivity. Qed.
+
+Theorem ramp_value_start lo hi len :
+  - RB <= lo <= RB -> - RB <= hi - lo <= RB -> 0 < len <= RB -> ramp_value lo hi 0 len = lo.
+Proof.
+  intros Hlo Hd Hlen. unfold ramp_value, ramp_f32.
+  pose proof (check_range_sound _ _ _ chk_div_all len) as A.
+  pose proof (check_range_sound _ _ _ chk_mul_all (hi - lo)) as B.
+  pose proof (check_range_sound _ _ _ chk_add_all lo) as C.
+  assert (HR : Z.of_nat (Z.to_nat RB) = RB) by reflexivity.
+  assert (HR2 : Z.of_nat (Z.to_nat (2 * RB + 1)) = 2 * RB + 1) by reflexivity.
+  specialize (A ltac:(lia)). specialize (B ltac:(lia)). specialize (C ltac:(lia)).
+  unfold chk_div in A. destruct (f32_div (f32_of_Z 0) (f32_of_Z len)) as [[|]| | |]; try discriminate.
+  unfold chk_mul, is_zero in B. destruct (f32_mul (f32_of_Z (hi - lo)) (S754_zero false)) as [s| | |]; try discriminate.
+  unfold chk_add in C. apply andb_prop in C. destruct C as [C1 C2]. apply Z.eqb_eq in C1, C2.
+  destruct s; assumption.
+Qed.
+
+Theorem ramp_start_spec (mk : Z -> Z -> event) b freq maxv lo hi len :
+  1 <= freq -> - RB <= lo <= RB -> - RB <= hi - lo <= RB -> 0 < len <= RB ->
+  exists rest,
+    map (fun j => mk (b + j) (value_range 0 (ramp_value lo hi j len) maxv)) (ticks freq len)
+    = mk b (value_range 0 lo maxv) :: rest.
+Proof.
+  intros Hf Hlo Hd Hlen. destruct (ticks_head freq len Hf ltac:(lia)) as [rest ->].
+  cbn [map]. rewrite ramp_value_start by assumption. rewrite Z.add_0_r. eexists. reflexivity.
+Qed.
